@@ -182,8 +182,12 @@ func TestC15(t *testing.T) {
 			envNames[s.Name+"/"+p] = c.partEnvNames(s, p)
 		}
 	}
+	precPrefixes := prefixes
+	if !thorough {
+		precPrefixes = []string{"app", "my_app", "my-app", ""} // "APP" differs from "app" in case only: env-name part in both tiers, precedence part in thorough
+	}
 	for _, s := range structs {
-		for _, p := range prefixes {
+		for _, p := range precPrefixes {
 			c.partPrecedence(s, p, envNames[s.Name+"/"+p], thorough)
 		}
 	}
@@ -231,7 +235,7 @@ func TestC15(t *testing.T) {
 	}
 	rep.Coverage["bound"] = map[string]any{
 		"structures":           fam,
-		"prefixes":             prefixes,
+		"prefixes":             map[string]any{"envnames_and_validation": prefixes, "precedence": precPrefixes},
 		"subsets_per_field":    16,
 		"backgrounds":          backgroundNames(thorough),
 		"value_variants":       "non-bool: all values non-zero and pairwise distinct over (source, field) | explicit zero at the winning source; bool: 4 patterns over (flag,env,file,def) separating every pair of sources",
